@@ -1,0 +1,33 @@
+//go:build verif
+
+package validation
+
+// Contracts for fvc (see /verif/DESIGN.md). Comment-only file.
+
+// regexp / k8s helper validations: ASSUMED deterministic predicates
+//@ pure matrixKeyOK(key string) bool
+//@ extern func (*regexp.Regexp).MatchString
+//@   params re, s
+
+//@ func Validator.ValidateParallelCompletionStrategy
+//@   tags C17
+//@   ensures [C17] (len(result) == 0) == (completionStrategy == v1alpha1.AllSuccessful || completionStrategy == v1alpha1.AnySuccessful)
+
+//@ func Validator.validateParallelismSpecWithMatrix
+//@   tags C14
+//@   loop 1 invariant len(allErrs) >= 0
+//@   loop 2 invariant len(allErrs) >= 0
+//@   ensures len(result) >= 0
+
+// Admission accepts a parallelism spec only if exactly one type is given, a count is positive and keys are non-empty (C14, C17)
+//@ pure numTypes(spec *v1alpha1.ParallelismSpec) Int = (spec.WithCount != nil ? 1 : 0) + (len(spec.WithKeys) > 0 ? 1 : 0) + (len(spec.WithMatrix) > 0 ? 1 : 0)
+
+//@ func Validator.ValidateParallelismSpec
+//@   tags C14, C17
+//@   requires spec != nil
+//@   loop 1 invariant -1 <= rangeindex && rangeindex < len(spec.WithKeys) && len(allErrs) >= 0 && numSpecified == 1 && spec.WithCount == nil
+//@   loop 1 invariant len(allErrs) == 0 ==> (forall k int :: 0 <= k && k <= rangeindex ==> len(spec.WithKeys[k]) > 0)
+//@   ensures [C14,C17] accepted-means-exactly-one-type: len(result) == 0 ==> numTypes(spec) == 1
+//@   ensures [C14,C17] accepted-count-is-positive: len(result) == 0 && spec.WithCount != nil ==> *spec.WithCount > 0
+//@   ensures [C14,C17] accepted-keys-are-non-empty: len(result) == 0 && spec.WithCount == nil && len(spec.WithKeys) > 0 ==> (forall k int :: 0 <= k && k < len(spec.WithKeys) ==> len(spec.WithKeys[k]) > 0)
+//@   ensures [C17] accepted-strategy-is-known: len(result) == 0 ==> spec.CompletionStrategy == v1alpha1.AllSuccessful || spec.CompletionStrategy == v1alpha1.AnySuccessful
